@@ -33,7 +33,7 @@ PATTERNS = {
     'INV': [['Si', 'S'], ['S', 'Si'], ['Di', 'D'], ['D', 'Di'], ['k2', 'km'], ['I']],
     'AXT': [['Ma', 'Mb'], ['Mb', 'Ma'], ['Me', 'Mf'], ['kt', 'kt']],
     'EXT': [['U', 'V'], ['V', 'W'], ['K', 'K'], ['I'], ['Ub', 'Vb']],
-    'BLK': [['Rw', 'Dg'], ['Dg', 'Dg'], ['Dg', 'Cl'], ['Rw', 'Cl'], ['Dr', 'Drt'], ['Ddi', 'Dd'], ['DgI'], ['RwT', 'Dr'], ['Dr', 'ClT'], ['RwT', 'ClT']],
+    'BLK': [['Bm', 'Bmi'], ['Bvt', 'Bv'], ['Bv', 'Bvt'], ['Rw', 'Dg'], ['Dg', 'Dg'], ['Dg', 'Cl'], ['Rw', 'Cl'], ['Dr', 'Drt'], ['Ddi', 'Dd'], ['DgI'], ['RwT', 'Dr'], ['Dr', 'ClT'], ['RwT', 'ClT']],
 }
 CONTEXT = {
     'POL': ['R2', 'H', 'k2', 'Pol', 'k4'],
@@ -224,6 +224,19 @@ def run(phase, cases, ctx):
             for f in recognise(chain):
                 violations.append({'kind': 'pattern-left', 'case': case,
                                    'detail': f'{f} in {xstate.describe(env, chain)} (result {xstate.describe(env, res_ops)})'})
+        # (2b) the normal form is a fixed point: reducing the result again must not change it
+        try:
+            with xstate.Timeout(60), P.quiet():
+                red2 = red.reduce()
+            ops2 = list(red2.operands) if isinstance(red2, CompositionOperator) else [red2]
+            if env.chain_key(ops2) != env.chain_key(res_ops):
+                violations.append({'kind': 'not-a-fixed-point', 'case': case,
+                                   'detail': f'reduce() gives {xstate.describe(env, res_ops)} but reducing that again gives {xstate.describe(env, ops2)}'})
+        except CaseTimeout:
+            violations.append({'kind': 'nontermination', 'case': case, 'detail': 'second reduce() did not return within 60 s'})
+        except BaseException as e:  # noqa: BLE001
+            err = P.LibError('reduce of the reduced operator', e)
+            violations.append({'kind': 'reduce-raises', 'case': case, 'detail': f'{err}\n{err.tb}'})
         # (3) scalar placement
         sp = scalar_placement(res_ops)
         if sp:
